@@ -45,7 +45,7 @@ COMPONENTS = {
     "stub": ["scheduler (baton passing; decides who runs)"],
     "oracle": ["solo run of the same operation list in a fresh thread"],
 }
-PROBES = ["both_in_read_decimal", "both_in_parse", "both_in_writer_dump", "both_in_validate",
+PROBES = ["prehistory_before_threads", "both_in_read_decimal", "both_in_parse", "both_in_writer_dump", "both_in_validate",
           "family_decimal", "family_logical", "family_general", "family_parse", "family_json", "family_resolve",
           "family_expand", "family_deep",
           "three_tasks", "strategy_pct", "strategy_uniform", "strategy_sticky", "fresh_process_schedule"]
@@ -210,12 +210,28 @@ def build(ch, F):
         rf.insert(ch.draw(len(rf) + 1), {"name": "e", "type": "string", "default": "added"})
         if ch.chance(50):
             rf.append({"name": "renamed", "type": "long", "aliases": ["zz"], "default": 5})
+        nested = ch.chance(50)
+        if nested:
+            # a nested record on both sides: a second reader record schema is first used in mid-record
+            W["fields"].append({"name": "n", "type": {"type": "record", "name": "Inner", "fields": [
+                {"name": "p", "type": "int"}, {"name": "q", "type": "string"}]}})
+            rf.insert(ch.draw(len(rf) + 1), {"name": "n", "type": {"type": "record", "name": "Inner", "fields": [
+                {"name": "q", "type": "string"}, {"name": "r", "type": "long", "default": 9}]}})
         Rd = {"type": "record", "name": "Rec", "fields": rf}
         E["P"] = F.parse_schema(W)
         E["RD"] = F.parse_schema(Rd)
+        own_reader = ch.chance(40)   # every task resolves against its OWN parsed copy of the reader schema
+        if own_reader:
+            for t in range(ntasks):
+                E[f"RD{t}"] = F.parse_schema(copy.deepcopy(Rd))
         for t in range(ntasks):
-            mk = lambda: {"a": ch.rng_int(-1000, 1000), "b": ch.pick(["x", "beta", "é"]), "c": float(ch.draw(100)) / 4,
-                          "d": ch.rng_int(-(1 << 40), 1 << 40), "g": ch.pick([None, "s"])}
+            def mk():
+                d = {"a": ch.rng_int(-1000, 1000), "b": ch.pick(["x", "beta", "é"]), "c": float(ch.draw(100)) / 4,
+                     "d": ch.rng_int(-(1 << 40), 1 << 40), "g": ch.pick([None, "s"])}
+                if nested:
+                    d["n"] = {"p": ch.draw(100), "q": ch.pick(["", "q"])}
+                return d
+            rdn = f"RD{t}" if own_reader else "RD"
             E[f"D{t}"] = mk()
             E[f"R{t}"] = [mk() for _ in range(1 + ch.draw(3))]
             if not materialise("P", f"D{t}", f"R{t}", False):
@@ -223,9 +239,9 @@ def build(ch, F):
             lst = []
             for j in range(1 + ch.draw(2)):
                 if ch.draw(2):
-                    lst.append({"op": "sread", "schema": "P", "bytes": f"B_D{t}", "reader": "RD"})
+                    lst.append({"op": "sread", "schema": "P", "bytes": f"B_D{t}", "reader": rdn})
                 else:
-                    lst.append({"op": "cread", "bytes": f"C_R{t}", "reader": "RD"})
+                    lst.append({"op": "cread", "bytes": f"C_R{t}", "reader": rdn})
             tasks.append(lst)
         return "resolve", E, tasks
     if fam == 0:
@@ -257,7 +273,7 @@ def build(ch, F):
             tasks.append(io_ops("P", f"D{t}", f"R{t}", t))
         return "logical", E, tasks
     if fam == 2 or fam == 4:
-        schema, _ = gen.schema(ch, max_depth=2, max_fields=3, top="record" if fam == 4 else "any")
+        schema, _ = gen.schema(ch, max_depth=2, max_fields=3, top="record" if fam == 4 else "any", wide=False)
         node = refavro.resolve(schema)
         E["P"] = F.parse_schema(copy.deepcopy(schema))
         shared = ch.chance(70)
@@ -273,7 +289,7 @@ def build(ch, F):
             tasks.append(io_ops(pname, f"D{t}", f"R{t}", t, allow_json=(fam == 4)))
         return ("json" if fam == 4 else "general"), E, tasks
     # parse family: raw copies into private dicts, shared parsed object re-parsed, canonical form, fingerprints
-    schema, _ = gen.schema(ch, max_depth=3, max_fields=4)
+    schema, _ = gen.schema(ch, max_depth=3, max_fields=4, wide=False)
     E["RAW"] = schema
     E["P"] = F.parse_schema(copy.deepcopy(schema))
     for t in range(ntasks):
@@ -327,7 +343,15 @@ def _both_in(sc, names):
     return False
 
 
-def fresh_sched_job(prefix, sseed, strategy):
+def _prehistory(F, n):
+    """n earlier single-threaded calls with their own short-lived schemas (resolution against a reader schema,
+    plain round trips): brings per-process tables to a known fill level -- just below, at, or just above the
+    usual capacities -- before the threads start."""
+    for i in range(n):
+        ops.apply(F, {"op": "churn", "i": 100000 + i, "kind": "resolve"}, {})
+
+
+def fresh_sched_job(prefix, sseed, strategy, pre=0):
     """Runs inside a fresh fork of the pristine server: rebuild the scenario from the
     recorded choice prefix and execute the scheduled run there, so that one-time lazy
     initialisation inside fastavro (a table built on first use, ...) happens UNDER the
@@ -336,6 +360,7 @@ def fresh_sched_job(prefix, sseed, strategy):
     F = common.fa()
     ch = Choices(recorded=prefix)
     fam, E, tasks = build(ch, F)
+    _prehistory(F, pre)
     try:
         sc, res = _run_sched(F, E, tasks, sseed, tuple(strategy))
     except (sched.Deadlock, sched.StepCap, sched.Stall) as e:
@@ -391,11 +416,13 @@ def run_one(ch, ctx):
     if fam == "deep":
         nsched = 1 if ctx.tier == "quick" else 3
     for si in range(nsched):
-        sseed, strategy, in_fresh = draw_schedule(ch, steps)
+        sseed, strategy, in_fresh, pre = draw_schedule(ch, steps, fam)
         ctx.probe("strategy_" + strategy[0])
         if in_fresh:
             ctx.probe("fresh_process_schedule")
-            d = srv.call("props.c18", "fresh_sched_job", (prefix, sseed, list(strategy)))
+            if pre:
+                ctx.probe("prehistory_before_threads")
+            d = srv.call("props.c18", "fresh_sched_job", (prefix, sseed, list(strategy), pre))
             if "abort" in d:
                 raise Violation("liveness", d["abort"], detail=d["what"], scenario=desc)
             if d["tasks"] != json.dumps(desc["tasks"], sort_keys=True, default=str):
@@ -427,7 +454,8 @@ def run_one(ch, ctx):
             raise Violation("interleaving", "differs-from-solo",
                             detail={"task": t, "op_index": j, "op": ops.describe(tasks[t][j]) if j is not None else None,
                                     "solo": bad[2], "under_schedule": bad[3], "strategy": list(strategy), "schedule_index": si,
-                                    "switches": len(sc.switches), "scheduled_run_in_fresh_process": in_fresh},
+                                    "switches": len(sc.switches), "scheduled_run_in_fresh_process": in_fresh,
+                                    "single_threaded_calls_before": pre if in_fresh else None},
                             sig=f"interleaving:differs-from-solo:{fam}", scenario=desc)
         inside = sum(1 for x in sc.switches if ":" in str(x[2]))
         if inside >= 1:
@@ -435,7 +463,7 @@ def run_one(ch, ctx):
     ctx.ev("ops", json.dumps(desc["tasks"], sort_keys=True, default=str))
 
 
-def draw_schedule(ch, steps):
+def draw_schedule(ch, steps, fam=None):
     sseed = ch.fork("sched")
     sk = ch.weighted([3, 3, 4])
     if sk == 0:
@@ -445,7 +473,10 @@ def draw_schedule(ch, steps):
     else:
         strategy = ("pct", 1 + ch.draw(3), max(2, steps))
     in_fresh = ch.chance(20)
-    return sseed, strategy, in_fresh
+    pre = 0
+    if in_fresh and ch.chance(80 if fam == "resolve" else 25):
+        pre = ch.pick([31, 32, 62, 63, 64, 65, 126, 127, 128, 254, 255, 256])
+    return sseed, strategy, in_fresh, pre
 
 
 def _diff(solo, res, n):
@@ -480,7 +511,7 @@ def refine(recorded):
         steps += sc.step
     sc = None
     for si in range(6):
-        sseed, strategy, in_fresh = draw_schedule(ch, steps)
+        sseed, strategy, in_fresh, pre = draw_schedule(ch, steps, fam)
         scx, resx = _run_sched(F, E, tasks, sseed, strategy)
         if _diff(solo, resx, n) is not None:
             sc, res = scx, resx
